@@ -27,8 +27,13 @@ func verifPINVStore(w1, wr, wp int) *verifPStore {
 	verifAssume(a < 1<<62)
 	s1 := verifU64("sigma1")
 	verifAssume(s1 >= 2 && s1 < 1<<62)
+	sparse := verifParam("sparse", 0) == 1 // damaged stores: records may already be missing inside a run
+	off := uint(0)
 	for i := 0; i < w1; i++ {
-		id := verifID1(a + uint(i))
+		if sparse && i > 0 {
+			off += uint(verifChoose("gap1", 2))
+		}
+		id := verifID1(a + uint(i) + off)
 		p := verifRefPublish(false, 1, false, []byte{'t'}, uint16(id), verifBytes("m1", 1))
 		recs = append(recs, rec{id, verifRecord(p, s1+uint64(i))})
 		ps.q1 = append(ps.q1, verifEntry{id: id, packet: p, written: true})
@@ -39,8 +44,12 @@ func verifPINVStore(w1, wr, wp int) *verifPStore {
 	verifAssume(sr >= 2 && sr < 1<<62)
 	sp := verifU64("sigmaPub")
 	verifAssume(sp >= 2 && sp < 1<<62)
+	off = 0
 	for i := 0; i < wr+wp; i++ {
-		id := verifID2(c + uint(i))
+		if sparse && i > 0 {
+			off += uint(verifChoose("gap2", 2))
+		}
+		id := verifID2(c + uint(i) + off)
 		var p []byte
 		var sg uint64
 		if i < wr {
